@@ -112,7 +112,7 @@ func altCost(model CostModel, pt *Point, alt int) int {
 	if model == CostDelay {
 		return 1
 	}
-	if pt.Pre && pt.Tids[alt] != pt.Tids[0] {
+	if pt.Pre && len(pt.Tids) > alt && pt.Tids[alt] != pt.Tids[0] {
 		return 1
 	}
 	return 0
@@ -121,7 +121,9 @@ func altCost(model CostModel, pt *Point, alt int) int {
 // runOne executes one prefix, checks it, and returns the children prefixes.
 func (e *explorer) runOne(it item) []item {
 	ex := e.scn.New()
-	r := Run(ex.Body, it.Prefix, it.Widths, e.scn.Cfg)
+	cfg := e.scn.Cfg
+	cfg.NeedTids = e.scn.Model == CostPreemption
+	r := Run(ex.Body, it.Prefix, it.Widths, cfg)
 	e.stats.Executions++
 	e.stats.Points += int64(len(r.Trace))
 	if len(r.Trace) > e.stats.MaxTrace {
@@ -221,6 +223,13 @@ func (e *explorer) dfs(root item) {
 	}
 }
 
+func envOr(k, d string) string {
+	if v := os.Getenv(k); v != "" {
+		return v
+	}
+	return d
+}
+
 // ExploreOpts controls one exploration.
 type ExploreOpts struct {
 	Workers  int
@@ -272,7 +281,7 @@ func Explore(scn *Scenario, o ExploreOpts) *Stats {
 		go func() {
 			defer wg.Done()
 			cmd := exec.Command(os.Args[0])
-			cmd.Env = append(os.Environ(), "VRT_WORKER=1", fmt.Sprintf("VRT_DEADLINE=%d", o.Deadline.Unix()), fmt.Sprintf("VRT_RECHECK=%d", o.Recheck), "GOMAXPROCS=1", "GOGC=400")
+			cmd.Env = append(os.Environ(), "VRT_WORKER=1", fmt.Sprintf("VRT_DEADLINE=%d", o.Deadline.Unix()), fmt.Sprintf("VRT_RECHECK=%d", o.Recheck), "GOMAXPROCS=1", "GOGC="+envOr("VRT_WORKER_GOGC", "400"), "GODEBUG="+envOr("VRT_WORKER_GODEBUG", ""))
 			cmd.Stderr = os.Stderr
 			in, _ := cmd.StdinPipe()
 			out, _ := cmd.StdoutPipe()
@@ -377,6 +386,7 @@ func ServeWorker(scenarios func(name string) *Scenario) {
 		return
 	}
 	runtime.GOMAXPROCS(1)
+	runtime.MemProfileRate = 0
 	var dl time.Time
 	var u int64
 	fmt.Sscanf(os.Getenv("VRT_DEADLINE"), "%d", &u)
@@ -447,7 +457,7 @@ func ExploreMany(scns []*Scenario, o ExploreOpts) ([]*Stats, string) {
 		go func() {
 			defer wg.Done()
 			cmd := exec.Command(os.Args[0])
-			cmd.Env = append(os.Environ(), "VRT_WORKER=1", fmt.Sprintf("VRT_DEADLINE=%d", o.Deadline.Unix()), fmt.Sprintf("VRT_RECHECK=%d", o.Recheck), "GOMAXPROCS=1", "GOGC=400")
+			cmd.Env = append(os.Environ(), "VRT_WORKER=1", fmt.Sprintf("VRT_DEADLINE=%d", o.Deadline.Unix()), fmt.Sprintf("VRT_RECHECK=%d", o.Recheck), "GOMAXPROCS=1", "GOGC="+envOr("VRT_WORKER_GOGC", "400"), "GODEBUG="+envOr("VRT_WORKER_GODEBUG", ""))
 			cmd.Stderr = os.Stderr
 			in, _ := cmd.StdinPipe()
 			outp, _ := cmd.StdoutPipe()
